@@ -148,6 +148,7 @@ struct Choices {
     bool text_path_records = false;  // PATHTYPE/WIDTH inside TEXT
     bool font_bits = false;      // font bits set in PRESENTATION
     int abs_bits = 0;            // STRANS bits 1-2 (absolute magnification / angle): flagged as unsupported, nothing else changes
+    bool nodes = false;          // NODE elements between the others (unsupported: skipped whole, nothing else changes)
     bool aref = true;            // lattices as AREF where the model has a regular repetition
     uint16_t version = 600;
     std::array<uint16_t, 12> lib_ts{{2020, 1, 2, 3, 4, 5, 2021, 6, 7, 8, 9, 10}};
